@@ -4,6 +4,8 @@ package main
 
 import (
 	"fmt"
+	"sort"
+	"strings"
 
 	"github.com/ovn-org/libovsdb/model"
 	"github.com/ovn-org/libovsdb/ovsdb"
@@ -386,6 +388,7 @@ func runC11(r *Run) {
 		n = 20000
 	}
 	uuid := uuidPool[1]
+	defer c11Txn(r)
 	for i := 0; i < n; i++ {
 		t := genTableSpec(r.Rng, "T", 4+r.Rng.Intn(4))
 		db, err := BuildDB(SchemaSpec{Name: "db", Tables: []TableSpec{t}}, nil)
@@ -463,6 +466,86 @@ func runC11(r *Run) {
 			if m.Acc.canon() != s.Acc.canon() {
 				r.Violation("chain", map[string]interface{}{"case": cs, "step": si}, s.Acc.canon(), m.Acc.canon(), false, "model and implementation disagree on the accumulated update", "")
 				break
+			}
+		}
+	}
+}
+
+// c11Txn: the same oracle on whole transactions run by the real engine on an in-memory database with
+// references: the update handed to Commit accumulates, per row, the operations of the transaction and the
+// changes the reference bookkeeping merged into it (weak references pruned, rows garbage collected, over one
+// or several passes). For every row: first old value = the row before the transaction, last new value = the
+// row after the commit, and the modify difference applied to the former gives the latter; rows that end as
+// they began, or that come and go within the transaction, have no update.
+func c11Txn(r *Run) {
+	n := 120
+	if r.Tier == "thorough" {
+		n = 1500
+	}
+	for h := 0; h < n; h++ {
+		ts := genTxnSchema(r.Rng, true)
+		chains := false
+		for try := 0; h%2 == 0 && try < 20 && !chains; try++ {
+			for _, t := range ts.Spec.Tables {
+				chains = chains || t.Name == chainTable
+			}
+			if !chains {
+				ts = genTxnSchema(r.Rng, true)
+			}
+		}
+		specOf := map[string]TableSpec{}
+		for _, t := range ts.Spec.Tables {
+			specOf[t.Name] = t
+		}
+		im := newImplDB(ts)
+		sh := newShadow()
+		var hist []TxnJ
+		for k := 0; k < 8; k++ {
+			txn := genTxn(r.Rng, ts, sh, 1+r.Rng.Intn(5))
+			if chains && r.Rng.Intn(2) == 0 {
+				txn = genChainTxn(r.Rng, ts, sh)
+			}
+			clampWaits(&txn)
+			hist = append(hist, txn)
+			before := im.dump()
+			out := im.transact(txn.Ops, nil)
+			after := im.dump()
+			sh.load(after)
+			if out.Panic != "" || !out.Committed || out.CommitErr != "" {
+				r.Case("txn", "")
+				continue
+			}
+			first, last := map[string]*ModelJ{}, map[string]*ModelJ{}
+			keys := map[string]bool{}
+			for _, d := range before {
+				first[d.Table+"/"+d.UUID] = &ModelJ{UUID: d.UUID, Row: d.Row}
+				keys[d.Table+"/"+d.UUID] = true
+			}
+			for _, d := range after {
+				last[d.Table+"/"+d.UUID] = &ModelJ{UUID: d.UUID, Row: d.Row}
+				keys[d.Table+"/"+d.UUID] = true
+			}
+			for k := range out.Updates {
+				keys[k] = true
+			}
+			key := ""
+			if len(out.Updates) > countOpRows(txn) {
+				key = fmt.Sprintf("%d/%d/%d", r.Seed, h, k) // rows changed by the reference bookkeeping alone
+				r.Count("txn:reference-driven")
+			}
+			r.Case("txn", key)
+			var ks []string
+			for k := range keys {
+				ks = append(ks, k)
+			}
+			sort.Strings(ks)
+			for _, kk := range ks {
+				table := kk[:strings.Index(kk, "/")]
+				if why := c11Oracle(specOf[table], first[kk], last[kk], out.Updates[kk]); why != "" {
+					cs := map[string]interface{}{"model": ts.modelJSON(), "history": hist, "row": kk}
+					r.Violation("txn", cs, out.Updates[kk].canon(), "", true, "accumulated update of a transaction is not the net update of row "+kk+": "+why, "")
+					break
+				}
 			}
 		}
 	}
